@@ -399,3 +399,14 @@ Section ScoreScale.
     rewrite (aggregate_eq FMedianLow sc sc' ltac:(discriminate) Hc). reflexivity.
   Qed.
 End ScoreScale.
+
+(* ---------------------------------------------------------------- the scale-free configurations, stated without k *)
+Definition scale_free_cfg (cf : score_cfg) (votes : sprofile) : Prop :=
+  sc_min_count cf = 0%Z /\
+  (Qle_bool (sc_trunc cf) 0 = true \/
+   (Qle_bool 1 (sc_trunc cf) = false /\ sp_total votes <> 0%Z /\ is_whole (inject_Z (sp_total votes) * sc_trunc cf))).
+
+Lemma scale_free_cfg_ok k cf votes : (0 < k)%Z -> scale_free_cfg cf votes -> cfg_ok k cf (sp_total votes).
+Proof.
+  intros Hk [Hmc [Ht|(Ht & Hn & Hw)]]; [apply cfg_ok_no_truncation; assumption|apply cfg_ok_whole_fraction; assumption].
+Qed.
